@@ -28,12 +28,6 @@ theorem reads_decVarElems (env : Env) (hlim : env.limit = none) {elem : Dec Val}
   simp only [h1, if_false, Int.toNat_natCast]
   exact Reads.congr (Reads.bind (reads_request hlim alen) r) (List.nil_append _) rfl
 
-theorem prod32_of {ds : List Nat} {alen : Nat} (h : prodNat ds = alen) (hal : alen ≤ 65535) : prod32 ds = alen := by
-  unfold prod32
-  unfold prodNat at h
-  rw [h]
-  exact Nat.mod_eq_of_lt (by omega)
-
 /-- 1-D array value: `.slice false xs` whose elements are leaves -/
 theorem wtArr_one {leaf : Val → Bool} {alen : Nat} {value : Val} (h : wtArr leaf [alen] value = true) :
     ∃ xs, value = .slice false xs ∧ xs.length = alen ∧ ∀ x ∈ xs, leaf x = true := by
@@ -113,7 +107,7 @@ theorem rt_variant_array (env : Env) (hlim : env.limit = none) (hrec : RecOk enc
       exact hdims
   obtain ⟨b1, b2, hd, r1, r2, hneg⟩ := rt_dims env hlim (has mask 0x40) dlen dims hdims'
   -- facts about the dimension list
-  have hprod : dlen > 0 → prod32 (dims.getD []) = alen ∧ prodL (dims.getD []) = alen ∧ (dims.getD []).length = dlen
+  have hprod : dlen > 0 → True ∧ prodL (dims.getD []) = alen ∧ (dims.getD []).length = dlen
       ∧ ∀ d ∈ dims.getD [], 1 ≤ d := by
     intro hpos
     by_cases c : has mask 0x40 = true
@@ -123,22 +117,20 @@ theorem rt_variant_array (env : Env) (hlim : env.limit = none) (hrec : RecOk enc
         rcases h5 with h5 | h5
         · omega
         · exact h5
-      exact ⟨prod32_of hp hal, by rw [← prodNat_eq]; exact hp, h2, fun d hd => (h4 d hd).1⟩
+      exact ⟨trivial, by rw [← prodNat_eq]; exact hp, h2, fun d hd => (h4 d hd).1⟩
     · simp only [c, Bool.false_eq_true, if_false] at hdims
       omega
-  have hmis : dlen > 0 → ¬ dimsMismatch env (dims.getD []) alen = true := by
+  have hmis : dlen > 0 → ¬ dimsMismatch (dims.getD []) alen = true := by
     intro hpos
     have hp := hprod hpos
     unfold dimsMismatch
-    split
-    · have h1 : ¬ toInt32 alen < 0 := by rw [toInt32_alen hal]; omega
-      have h2 : (dims.getD []).foldl (· * ·) 1 = alen := by
-        have := hp.2.1
-        rw [← prodNat_eq] at this
-        exact this
-      have h3 : (toInt32 alen).toNat = alen := by rw [toInt32_alen hal]; simp
-      simp [h1, h2, h3]
-    · simp [hp.1]
+    have h1 : ¬ toInt32 alen < 0 := by rw [toInt32_alen hal]; omega
+    have h2 : (dims.getD []).foldl (· * ·) 1 = alen := by
+      have := hp.2.1
+      rw [← prodNat_eq] at this
+      exact this
+    have h3 : (toInt32 alen).toNat = alen := by rw [toInt32_alen hal]; simp
+    simp [h1, h2, h3]
   -- the encoder
   have henc : encVarValue encT (mask % 64) ⟨mask % 64, max 1 dlen⟩ value = .ok eb := by
     rw [encVarValue_eq _ _ _ t0]
@@ -184,7 +176,7 @@ theorem rt_variant_array (env : Env) (hlim : env.limit = none) (hrec : RecOk enc
     by_cases hd2 : dlen < 2
     · simp only [hd2, if_true] at hval
       subst hval
-      have hcheck : ¬ (dlen > 0 ∧ dimsMismatch env (dims.getD []) alen = true) := by
+      have hcheck : ¬ (dlen > 0 ∧ dimsMismatch (dims.getD []) alen = true) := by
         intro hc
         exact hmis hc.1 hc.2
       simp only [hcheck, if_false, hd2, if_true, hnil]
@@ -193,7 +185,7 @@ theorem rt_variant_array (env : Env) (hlim : env.limit = none) (hrec : RecOk enc
       exact Reads.ret _
     · simp only [hd2, if_false] at hval
       have hp := hprod (by omega)
-      have hcheck : ¬ (dlen > 0 ∧ dimsMismatch env (dims.getD []) alen = true) := fun hc => hmis hc.1 hc.2
+      have hcheck : ¬ (dlen > 0 ∧ dimsMismatch (dims.getD []) alen = true) := fun hc => hmis hc.1 hc.2
       simp only [hcheck, if_false, hd2, hnil]
       have hmax : max 1 dlen = dlen := by omega
       rw [hmax]
